@@ -590,30 +590,41 @@ def table_row_swapped_jw(row, primary_ops: List, op2idx: Dict):
     op2: Op = primary_ops[row[2]]
 
     # remember: all possible operators: I Z + -
+    # both spellings accepted by `BasisHalfSpin` are recognised. `qc_model` uses the short one
+    plus_symbols = ("sigma_+", "+")
+    minus_symbols = ("sigma_-", "-")
+    z_symbols = ("sigma_z", "Z")
+    def count(op: Op, symbols):
+        return sum(s in symbols for s in op.split_symbol)
     # new sigma_z produced for dof1 by op2
-    op1_new_sigma_z = (op1.split_symbol.count("sigma_+") + op1.split_symbol.count("sigma_-")) % 2
+    op1_new_sigma_z = (count(op1, plus_symbols) + count(op1, minus_symbols)) % 2
     # similar except by op2
-    op2_new_sigma_z = (op2.split_symbol.count("sigma_+") + op2.split_symbol.count("sigma_-")) % 2
+    op2_new_sigma_z = (count(op2, plus_symbols) + count(op2, minus_symbols)) % 2
     # determine the coefficient
-    op1_n_sigma_plus = op1.split_symbol.count("sigma_+")
-    op1_n_sigma_minus = op1.split_symbol.count("sigma_-")
+    op1_n_sigma_plus = count(op1, plus_symbols)
+    op1_n_sigma_minus = count(op1, minus_symbols)
     assert op1_n_sigma_plus in [0, 1]
     assert op1_n_sigma_minus in [0, 1]
     n_permutes = op2_new_sigma_z * (op1_n_sigma_plus + op1_n_sigma_minus)
     coeff = (-1) ** n_permutes
+    # follow the spelling of the operators at hand
+    if any(s in ("+", "-", "Z") for s in op1.split_symbol + op2.split_symbol):
+        sigma_z = "Z"
+    else:
+        sigma_z = "sigma_z"
     # cancel sigma_z as much as possible
     def prepend_sigma_z(op: Op):
         symbol_list = op.split_symbol
         if symbol_list[0] == "I":
             assert len(symbol_list) == 1
-            new_op = Op("sigma_z", op.dofs[0], qn=0)
-        elif symbol_list[0] == "sigma_z":
+            new_op = Op(sigma_z, op.dofs[0], qn=0)
+        elif symbol_list[0] in z_symbols:
             if len(symbol_list) == 1:
                 new_op = Op.identity(op.dofs[0])
             else:
                 new_op = Op(" ".join(symbol_list[1:]), op.dofs[1:], qn=op.qn_list[1:])
-        elif symbol_list[0] == "sigma_+" or symbol_list[0] == "sigma_-":
-            new_op = Op("sigma_z " + op.symbol, [op.dofs[0]] + op.dofs, qn=[0] + op.qn_list)
+        elif symbol_list[0] in plus_symbols or symbol_list[0] in minus_symbols:
+            new_op = Op(sigma_z + " " + op.symbol, [op.dofs[0]] + op.dofs, qn=[0] + op.qn_list)
         else:
             assert False
         return new_op
